@@ -7,6 +7,7 @@ import (
 	"fmt"
 	"hash/fnv"
 	"os"
+	"runtime/pprof"
 	"strings"
 	"sync/atomic"
 	"testing"
@@ -227,6 +228,12 @@ func WorkerMain(t *testing.T, p *Prop, seed uint64, tier string, shard, shards i
 	if err := CheckEncodableTable(); err != nil {
 		fmt.Fprintln(os.Stderr, "HARNESS-ERROR: value classification self-check failed:", err)
 		return 2
+	}
+	if pf := os.Getenv("VERIF_PROFILE"); pf != "" {
+		if f, err := os.Create(pf); err == nil {
+			pprof.StartCPUProfile(f) //nolint:errcheck
+			defer pprof.StopCPUProfile()
+		}
 	}
 	rep := &WorkerReport{RaceBuild: RaceEnabled}
 	x := NewExec()
